@@ -423,10 +423,19 @@ class Reduce(Contract):
         return "import sys; sys.path.insert(0, %r)\nfrom native import c15b\nc15b.run_pickle()\n" % here
 
 
+def _submatrix_contract():
+    # Matrix.submatrix (cache guard): the same contract as in C14 (contracts/c14_matrix.py), claimed under C15 as well because the property names
+    # sub-matrix selection: the returned object was built by _submatrix for masks EQUAL to the requested rows AND cols
+    from contracts import c14_matrix
+    c = c14_matrix.Submatrix()
+    c.prop = PROP
+    return c
+
+
 def contracts():
     from contracts import blockcsr, matwrap
     return ([AssembleCSR(), AssembleCOO(), Diagonal(), Constructor('diag'), Constructor('empty'), RowSupp('default'), RowSupp('given'), Reduce()]
-            + matwrap.contracts() + blockcsr.contracts())
+            + matwrap.contracts() + blockcsr.contracts() + [_submatrix_contract()])
 
 
 TRUSTED = ['pyvc symbolic executor and its Python model (DESIGN 2.3)',
